@@ -376,6 +376,10 @@ def advance(sim, n):
 def apply_ops(sim, ops):
     """structural / parameter operations of a history (applied identically to original and restored)"""
     for op in ops:
+        if not (op.startswith("steps:") or op in ("sync", "dt")):
+            # REBOUND requires a synchronised state before particles / integrators are modified
+            # ("Recalculating coordinates but pos/vel were not synchronized before")
+            sim.synchronize()
         if op == "remove_last":
             sim.remove(index=sim.N - 1)
         elif op == "remove_mid":
@@ -396,6 +400,9 @@ def apply_ops(sim, ops):
             sim.add_variation()
         elif op.startswith("switch:"):
             sim.integrator = op.split(":")[1]
+            sim.reset_integrator()          # documented way to discard the old integrator's temporary state
+        elif op.startswith("switchraw:"):
+            sim.integrator = op.split(":")[1]
         elif op.startswith("steps:"):
             sim.steps(int(op.split(":")[1]))
         else:
@@ -403,6 +410,7 @@ def apply_ops(sim, ops):
 
 
 PRE_OPS = [[], ["remove_last"], ["remove_last", "steps:2"], ["add", "steps:2", "remove_last"], ["remove_mid", "steps:1"],
-           ["add", "steps:3"], ["reset"], ["switch:leapfrog", "steps:2"], ["switch:ias15", "steps:2", "remove_last"], ["sync"]]
+           ["add", "steps:3"], ["reset"], ["switch:leapfrog", "steps:2"], ["switch:ias15", "steps:2", "remove_last"], ["sync"],
+           ["switchraw:leapfrog", "steps:2"]]
 POST_OPS = [[], ["add"], ["remove_last"], ["mass"], ["dt"], ["add", "add2"], ["remove_last", "add"], ["switch:leapfrog"],
-            ["switch:ias15"], ["switch:whfast"], ["reset"], ["sync"], ["add", "mass", "dt"]]
+            ["switch:ias15"], ["switch:whfast"], ["reset"], ["sync"], ["add", "mass", "dt"], ["switchraw:leapfrog"], ["switchraw:ias15"]]
